@@ -1540,6 +1540,10 @@ class Engine:
                 raise failed['a']
             return vals['b'] if 'a' in failed else vals['a']
         a, b = vals['a'], vals['b']
+        if not self.in_spec and any(isinstance(x, (Closure, BoundMethod, Obj, Opaque, PyList, dict, str, bytes)) or hasattr(x, 'method')
+                                    for x in (a, b)):
+            # alternatives that are objects / functions / texts cannot be merged into one term: one path each
+            return a if self.branch(c) else b
         return self.ite(c, a, b)
 
     def ite(self, c, a, b):
@@ -2408,6 +2412,11 @@ class Engine:
                 all(isinstance(x, (str, int)) for x in (args[0].items if isinstance(args[0], PyList) else args[0])))):
             items = () if not args else (args[0].items if isinstance(args[0], PyList) else args[0])
             return frozenset(items) if name == 'frozenset' else PyList(list(dict.fromkeys(items)))
+        if name == 'sorted' and len(args) == 1 and not kwargs:
+            items = args[0].items if isinstance(args[0], PyList) else (list(args[0]) if isinstance(args[0], (tuple, list, set, frozenset, dict)) else None)
+            if items is not None and (all(type(x) is str for x in items) or all(type(x) is int for x in items)):
+                return PyList(sorted(items))        # concrete keys: plain execution
+            raise Unsupported('sorted() of symbolic items')
         if name == 'map' and len(args) == 2 and isinstance(args[1], (PyList, tuple, list)) and not kwargs:
             # map(f, xs) over a list of known length; evaluated eagerly (every use in scope consumes it at once)
             items = args[1].items if isinstance(args[1], PyList) else list(args[1])
